@@ -77,7 +77,11 @@ def check_zone(ctx, tz, label, z, rz, rng, fhash, full=True):
         return 0
     wild = label.startswith('synthetic:wild')
     for i, off, ts in probe_instants(rz, rng):
-        u = (EPOCH + D.timedelta(seconds=ts)).replace(tzinfo=UTC)
+        # fractions of a second next to a transition (the interval containing ts + us is that of ts)
+        us = rng.choice([0, 1, 250000, 750000, 999999]) if off in (-1, 0, 1, 59, -1800) else 0
+        if us:
+            ctx.count('subsecond_probes' + ('_pre1970' if ts < 0 else ''))
+        u = (EPOCH + D.timedelta(seconds=ts, microseconds=us)).replace(tzinfo=UTC)
         exp = rz.type_at(ts)
         ctx.ev()
         try:
@@ -104,7 +108,7 @@ def check_zone(ctx, tz, label, z, rz, rng, fhash, full=True):
         if bad:
             n_bad += 1
             if n_bad <= 3:
-                ctx.violation('tzif-mismatch', {'zone': label, 'utc': ts, 'utc_iso': u.replace(tzinfo=None).isoformat(), 'transition': i,
+                ctx.violation('tzif-mismatch', {'zone': label, 'utc': ts, 'us': us, 'utc_iso': u.replace(tzinfo=None).isoformat(), 'transition': i,
                                                 'offset': off, 'expected_type': list(exp)}, '; '.join(bad))
         if i >= 0 and (off == 'r' or abs(off) <= 10800):
             ctx.distinct('%s|%d|%s' % (fhash, i, off))
@@ -298,6 +302,8 @@ def floors(agg, tier):
         out.append('only %d synthetic zones' % c.get('synthetic_zones', 0))
     if agg['evaluations'] < (40000 if tier == 'quick' else 300000):
         out.append('only %d evaluations' % agg['evaluations'])
+    if c.get('subsecond_probes_pre1970', 0) < 500:
+        out.append('only %d sub-second probes before 1970' % c.get('subsecond_probes_pre1970', 0))
     for s in ('fold-into-dst-flagged', 'dst-to-dst', 'same-offset-type-change', 'first-transition-fold'):
         if c.get('shape_' + s, 0) < 1:
             out.append('no real file with shape %s was reached' % s)
